@@ -302,6 +302,14 @@ func runsString(addrs []int) string {
 func surface(site string, mem memory.Memory, mdl memModel, off model.Addr, c memCase, lo int) *eng.Fail {
 	ws := seq(1, c.MaxW)
 	ws = append(ws, c.ExtraW...)
+	// interval maps the memory returned are kept and looked at again at the end: no later call
+	// may alter a value returned earlier
+	type keptMap struct {
+		what string
+		m    interval.Map[model.Addr]
+		dig  string
+	}
+	var kept []keptMap
 	for a := lo; a <= c.MaxA; a++ {
 		for _, w := range ws {
 			desc := fmt.Sprintf("%s.Load(%d,%d)", site, a, w)
@@ -373,6 +381,14 @@ func surface(site string, mem memory.Memory, mdl memModel, off model.Addr, c mem
 			if exp := runsString(missing); got != exp || bad != "" {
 				return &eng.Fail{Sig: site + ".Missing wrong", What: fmt.Sprintf("%s.Missing(%d,%d) = %s %s, expected %s", site, a, w, got, bad, exp), Case: c}
 			}
+			if got != "" {
+				kept = append(kept, keptMap{fmt.Sprintf("Missing(%d,%d)", a, w), mm, got})
+			}
+		}
+	}
+	for _, k := range kept {
+		if now, _ := ivString(k.m, off); now != k.dig {
+			return &eng.Fail{Sig: site + " alters-returned-missing", What: fmt.Sprintf("the interval map returned by %s.%s was %s and, after later reads, is %s", site, k.what, k.dig, now), Case: c}
 		}
 	}
 	var bm interval.Map[model.Addr]
@@ -618,7 +634,12 @@ func memRun(c memCase) (*eng.Fail, int) {
 					if ok && ex != nil {
 						rets = append(rets, returned{ex, ir.Show(ex)})
 					}
-					eng.Catch(func() { mem.Missing(off+model.Addr(a), expr.Width(w)) })
+					eng.Catch(func() {
+						mm := mem.Missing(off+model.Addr(a), expr.Width(w))
+						if d, _ := ivString(mm, off); d != "" {
+							midBlocks = append(midBlocks, returnedBlocks{mm, d})
+						}
+					})
 				}
 			}
 			// ... and the block list (whatever it caches must not survive the next store)
@@ -639,7 +660,7 @@ func memRun(c memCase) (*eng.Fail, int) {
 	}
 	for _, b := range midBlocks {
 		if d, _ := ivString(b.m, off); d != b.dig {
-			return &eng.Fail{Sig: site + " alters-returned-blocks", What: fmt.Sprintf("a block list returned by Blocks() mid-history was %s and is now %s", b.dig, d), Case: c}, trans
+			return &eng.Fail{Sig: site + " alters-returned-blocks", What: fmt.Sprintf("an interval map returned by Blocks() or Missing() mid-history was %s and is now %s", b.dig, d), Case: c}, trans
 		}
 	}
 	for _, r := range rets {
